@@ -319,7 +319,7 @@ def run(ck):
     base = [c for c in cases if "term" in c and not c["label"].startswith("noreduce") and "_crys" in c]
     base.sort(key=lambda c: (c.get("orthogonal", False), c["label"], str(c["Nmesh"])))       # non-orthogonal lattices first
     nsweep = 0
-    for b in base[:ck.n(12, 30)]:
+    for b in base[:ck.n(12, 24)]:
         for sc in ([rng.choice(SCALES)] if ck.quick else SCALES):
             c0 = b["_crys"]
             try:
